@@ -663,6 +663,8 @@ func TestCheck(t *testing.T) {
 		return
 	}
 	r := vf.Start("C10", "model_checking")
+	// supplement (sampling, decides nothing): concurrent callers on the real sequencer, free-running under the race detector
+	r.RacePass(vf.Pick(r, 5, 100), "github.com/evstack/ev-node/")
 	depth := vf.Pick(r, 8, 12)
 	bounds := vf.Pick(r, []int{2, 3}, []int{1, 2, 3, 4})
 	acts := alphabet(r.Thorough())
